@@ -51,7 +51,7 @@ ConcChecked(r) ==
 LookupOK(fold, fs, n, x) ==
     LET want == Lookup(fold, fs, n) IN
     IF want = {} THEN /\ x.hase = "" /\ ~x.has
-                      /\ x.ce = NotFound /\ x.cbe \in NoFile /\ x.cse \in NoFile
+                      /\ x.ce # "" /\ x.cbe # "" /\ x.cse # ""       \* refused by some exception
     ELSE /\ x.hase = "" /\ x.has
          /\ x.ce = "" /\ x.c \in want /\ x.cbe = "" /\ x.cb \in want /\ x.cse = "" /\ x.cs \in want
 GotKeys(fold, items) == {Key(fold, items[k].n) : k \in 1..Len(items)}
@@ -98,64 +98,73 @@ ChainChecked(r) ==
     /\ (r.order = wantOrder \/ Report("chain.order", "act", 0, 0, wantOrder))
     /\ \A j \in 1..Len(r.lookups) :
          LET x == r.lookups[j] n == QOf(x) calls == x.calls
-             hit == {c \in 1..Len(calls) : calls[c].found}
+             \* did every member, whenever it was consulted, answer as its file set says?
+             asSpec(c) == LET want == Lookup(fold, MemberFs(r, calls[c].m), TextComps(calls[c].arg)) IN
+                          IF want = {} THEN ~calls[c].found ELSE calls[c].found /\ calls[c].c \in want
+             bound(c) == BoundText(fold, r.members[calls[c].m].backend, MemberFs(r, calls[c].m), calls[c].arg)
+             trust == \A c \in 1..Len(calls) : bound(c) /\ asSpec(c)
+             want == ChainLookup(fold, ch, n)
+             having == HavingMembers(fold, ch, n)
          IN
-         \* members are asked in priority order, for prefix + name, until one has it
-         /\ ((/\ \A c \in 1..Len(calls) : calls[c].m = c /\ TextComps(calls[c].arg) = pfxs[c] \o n
-              /\ (hit = {} => Len(calls) = M) /\ (hit # {} => hit = {Len(calls)}))
-               \/ Report("chain.lookup.route", "lookups", j, 0, [c \in 1..M |-> pfxs[c] \o n]))
-         \* the answer is that member's answer
-         /\ ((IF hit = {} THEN ~x.has /\ x.hase = "" /\ x.ce = NotFound /\ x.cbe \in NoFile
-              ELSE x.has /\ x.hase = "" /\ x.ce = "" /\ x.cbe = ""
-                   /\ x.c = calls[Len(calls)].c /\ x.cb = calls[Len(calls)].c)
-               \/ Report("chain.lookup.result", "lookups", j, 0, IF hit = {} THEN NotFound ELSE calls[Len(calls)].c))
-         \* get_system names the member that answered
-         /\ ((x.owner = (IF hit = {} THEN 0 ELSE Len(calls)))
-               \/ Report("chain.lookup.owner", "lookups", j, 0, IF hit = {} THEN 0 ELSE Len(calls)))
+         \* the answer is the content of the first member that has prefix + name (how, and how often,
+         \* the chain consults its members is its own business)
+         /\ (trust =>
+              ((IF want = {} THEN ~x.has /\ x.hase = "" /\ x.ce # "" /\ x.cbe # ""
+                ELSE x.has /\ x.hase = "" /\ x.ce = "" /\ x.cbe = "" /\ x.c \in want /\ x.cb \in want)
+                 \/ Report("chain.lookup.result", "lookups", j, 0, want)))
+         \* get_system names that member
+         /\ (trust =>
+              ((x.owner = (IF having = {} THEN 0 ELSE Min(having)))
+                 \/ Report("chain.lookup.owner", "lookups", j, 0, IF having = {} THEN 0 ELSE Min(having))))
          \* each member answers as its file set says
          /\ \A c \in 1..Len(calls) :
-              LET mfs == MemberFs(r, calls[c].m) want == Lookup(fold, mfs, TextComps(calls[c].arg)) IN
-              BoundText(fold, r.members[calls[c].m].backend, mfs, calls[c].arg) =>
-                 ((IF want = {} THEN ~calls[c].found /\ calls[c].e = NotFound
-                   ELSE calls[c].found /\ calls[c].c \in want)
-                    \/ Report("member.lookup", "lookups", j, c, want))
+              bound(c) => (asSpec(c) \/ Report("member.lookup", "lookups", j, c,
+                                               Lookup(fold, MemberFs(r, calls[c].m), TextComps(calls[c].arg))))
     /\ \A j \in 1..Len(r.walks) :
          LET w == r.walks[j] d == QOf(w) calls == w.calls
              lists == [c \in 1..Len(calls) |-> ListOf(calls[c].items)]
-             deviates == \E c \in 1..Len(calls) :
-                            GotKeys(fold, calls[c].items) # WalkKeys(fold, MemberFs(r, calls[c].m), TextComps(calls[c].arg))
+             bound(c) == BoundText(fold, r.members[calls[c].m].backend, MemberFs(r, calls[c].m), calls[c].arg)
+             trust == \A c \in 1..Len(calls) :
+                         bound(c) /\ GotKeys(fold, calls[c].items) = WalkKeys(fold, MemberFs(r, calls[c].m), TextComps(calls[c].arg))
+             \* one consultation per member, in priority order, at prefix + folder, and every reported
+             \* name below the member's prefix: then the chain's list is determined by the reports
+             plain == /\ Len(calls) = M
+                      /\ \A c \in 1..Len(calls) :
+                            /\ calls[c].m = c /\ TextComps(calls[c].arg) = pfxs[c] \o d
+                            /\ \A k \in 1..Len(lists[c]) : /\ Len(lists[c][k].n) > Len(pfxs[c])
+                                                          /\ IsPrefixSeq(Key(fold, pfxs[c]), Key(fold, lists[c][k].n))
              got == ListOf(w.items)
+             rep == ListOf(w.rep)
          IN
          /\ (w.e = "" \/ Report("chain.walk.error", "walks", j, 0, w.e))
-         \* every member is walked, in priority order, at prefix + folder
-         /\ ((Len(calls) = M /\ \A c \in 1..Len(calls) : calls[c].m = c /\ TextComps(calls[c].arg) = pfxs[c] \o d)
-               \/ Report("chain.walk.route", "walks", j, 0, [c \in 1..M |-> pfxs[c] \o d]))
-         \* the chain's list = members' lists, names relative to the prefix, first occurrence of each name
-         /\ (Len(calls) = M =>
+         \* members' lists, names relative to the prefix, first occurrence of each name, each name once
+         /\ (plain =>
               LET want == Compose(fold, pfxs, lists) IN
               ((PairSet(fold, got) = PairSet(fold, want) /\ NoDupKeys(fold, got))
                  \/ Report("chain.walk.compose", "walks", j, 0, want)))
-         \* walk_folder_repeat: the same lists, every occurrence kept, in chain order
-         /\ (Len(calls) = M =>
-              LET want == ComposeRepeat(fold, pfxs, lists) rep == ListOf(w.rep) IN
-              ((Len(rep) = Len(want) /\ \A k \in 1..Len(rep) : Key(fold, rep[k].n) = Key(fold, want[k].n) /\ rep[k].c = want[k].c)
-                 \/ Report("chain.walk.repeat", "walks", j, 0, want)))
          \* each member lists what its file set says
          /\ \A c \in 1..Len(calls) :
               LET mfs == MemberFs(r, calls[c].m) want == WalkKeys(fold, mfs, TextComps(calls[c].arg))
                   gotc == GotKeys(fold, calls[c].items) IN
-              BoundText(fold, r.members[calls[c].m].backend, mfs, calls[c].arg) =>
+              bound(c) =>
                  /\ (want \subseteq gotc \/ Report("walk.missing", "walks", j, c, want \ gotc))
                  /\ (gotc \subseteq want \/ Report("walk.extra", "walks", j, c, gotc \ want))
-         \* end to end (when the members behaved): exactly the specified names, each yielding, by
-         \* walk and by look-up, the content of the first member that has it
-         /\ ((~deviates /\ Len(calls) = M) =>
+         \* end to end (when the members behaved): exactly the specified names, each once, each yielding,
+         \* by walk and by look-up, the content of the first member that has it
+         /\ (trust =>
               ((/\ GotKeys(fold, w.items) = ChainWalkKeys(fold, ch, d)
+                /\ NoDupKeys(fold, got)
                 /\ \A k \in 1..Len(w.items) :
                      LET cs == ChainWalkContents(fold, ch, d, Key(fold, w.items[k].n)) IN
                      /\ w.items[k].ce = "" /\ w.items[k].c \in cs
                      /\ w.items[k].le = "" /\ w.items[k].l \in cs)
                  \/ Report("chain.walk.result", "walks", j, 0, ChainWalkKeys(fold, ch, d))))
+         \* the walk that keeps repeats lists the same names, each occurrence being some member's file
+         /\ (trust =>
+              ((/\ GotKeys(fold, w.rep) = ChainWalkKeys(fold, ch, d)
+                /\ \A k \in 1..Len(rep) : \E m \in 1..M : \E e \in MemberWalk(fold, ch[m], d) :
+                       Key(fold, e.n) = Key(fold, rep[k].n) /\ e.c = rep[k].c)
+                 \/ Report("chain.walk.repeat", "walks", j, 0, ChainWalkKeys(fold, ch, d))))
 
 Checked == i = 0 \/ LET r == Recs[i] IN
               ConcChecked(r) /\ CASE r.k = "fs" -> FsChecked(r) [] r.k = "chain" -> ChainChecked(r)
